@@ -293,6 +293,8 @@ theorem rel_cycle (env : Env) (j : Nat) (hb : BehAlike env j) (pre mid post : Me
 
 theorem rel_query (env : Env) (j : Nat) (hb : BehAlike env j) : Rel j (query env) (query (env.onInst j)) := by
   unfold query
+  generalize headFirst Method.query = hfq
+  cases hfq <;> simp only [if_true, if_false, Bool.false_eq_true] <;>
   exact rel_dep j fun s0 => Rel.seq (rel_deliver env j hb _ _ _ _) (rel_deliver env j hb _ _ _ _)
 
 theorem rel_extChange (env : Env) (j d : Nat) (p : Option Nat) : Rel j (extChange env d p) (extChange (env.onInst j) d p) :=
